@@ -15,6 +15,7 @@ import (
 )
 
 type Ctx struct {
+	resetUndecided int // functions for which RESET.R1 was not decided (restructured)
 	undecidedCTR func(fname, text string) string // contracts reported as not decided (reason) instead of as violations
 	copyFillSeen int // copies checked by copyFillHooks
 	Prog  *core.Program
